@@ -80,6 +80,15 @@ impl AcbWriter for CsvWriter {
 
         let n_cols = table_model.header.len();
 
+        // Errors (eg. why the transactions of this security stop where they do) are
+        // part of the table model, and are shown by the text writer as well.
+        for err in &table_model.errors {
+            let mut err_record = Vec::<String>::with_capacity(n_cols);
+            err_record.resize(n_cols, String::new());
+            err_record[0] = format!("[!] {err}");
+            csv_w.write_record(err_record).map_err(|e| e.to_string())?;
+        }
+
         for note in &table_model.notes {
             let mut note_record = Vec::<String>::with_capacity(n_cols);
             note_record.resize(n_cols, String::new());
